@@ -1165,6 +1165,55 @@ def rule_tagspec_syntax(chk, prog, tier):
     r.exhaustive = False
 
 
+# ------------------------------------------------------------------ C10.v operand of unary &
+
+def rule_addressof(chk, prog, tier):
+    r = chk.rule('C10.v', 'the operand of unary & is a function designator, the result of [] or unary *, or an lvalue that is not a bit-field (6.5.3.2p1): the value of a function call or of an arithmetic expression - also one of structure type - '
+                 'is diagnosed; arrays (before decay), string literals, compound literals and functions are accepted', floor=10, oracle='C11 6.5.3.2p1')
+    fn = prog.require_func('unaryexpr', 'expr.c')
+    CASES = [('lvalue int', True), ('rvalue int', False), ('lvalue struct', True), ('rvalue struct (value of a call)', False), ('function designator', True), ('array', True), ('rvalue pointer', False), ('bit-field', False),
+             ('*p', True), ('member of an rvalue struct', False), ('array member of an lvalue struct', True)]
+    for what, ok in CASES:
+        def runner(it):
+            w = World(prog, it=it, target='x86_64-sysv')
+            I = w.t('int'); S = w.mkstruct(size=8, align=4)
+            def lv(e): e.obj.f[('lvalue',)] = 1; return e
+            if what == 'lvalue int': e = lv(w.temp(I, 'x'))
+            elif what == 'rvalue int': e = w.temp(I, 'x')
+            elif what == 'lvalue struct': e = lv(w.temp(S, 's'))
+            elif what.startswith('rvalue struct'): e = w.mkexpr('EXPRCALL', S, w.temp(w.mkptr(I), 'f'))
+            elif what == 'function designator':
+                ft = it.call('mktype', [ev(prog, 'TYPEFUNC'), 0]); ft.obj.f.update({('base',): I, ('qual',): 0, ('size',): 0, ('align',): 0, ('incomplete',): 0, ('u', 'func', 'params'): None, ('u', 'func', 'nparam'): 0, ('u', 'func', 'isvararg'): 0})
+                e = it.call('decay', [w.mkexpr('EXPRIDENT', ft)])
+            elif what == 'array': e = it.call('decay', [lv(w.temp(it.call('mkarraytype', [I, 0, 3]), 'a'))])
+            elif what == 'rvalue pointer': e = w.temp(w.mkptr(I), 'p')
+            elif what == 'bit-field': e = lv(w.mkexpr('EXPRBITFIELD', I, lv(w.temp(I, 'b')), u__bitfield__bits__before=0, u__bitfield__bits__after=29))
+            elif what == '*p': e = it.call('mkunaryexpr', [ev(prog, 'TMUL'), w.temp(w.mkptr(I), 'p')])
+            elif what == 'member of an rvalue struct':
+                e = it.call('mkunaryexpr', [ev(prog, 'TMUL'), w.temp(w.mkptr(I), 'm')]); e.obj.f[('lvalue',)] = 0
+            else:
+                inner = it.call('mkunaryexpr', [ev(prog, 'TMUL'), w.temp(w.mkptr(it.call('mkarraytype', [I, 0, 3])), 'm')]); e = inner
+            tokobj = it.gobj('tok'); st = {'i': 0}; seq = ['TBAND', 'TIDENT', 'TSEMICOLON']
+            def load():
+                tokobj.f[('kind',)] = ev(prog, seq[min(st['i'], 2)]); tokobj.f[('lit',)] = None
+                tokobj.f[('loc', 'file')] = None; tokobj.f[('loc', 'line')] = 1; tokobj.f[('loc', 'col')] = 1
+            def nxt(i2, a, e_): st['i'] += 1; load(); return None
+            def operand(i2, a, e_): nxt(i2, a, e_); return e
+            it.models.update({'next': nxt, 'consume': lambda i2, a, e_: 0, 'castexpr': operand, 'postfixexpr': operand, 'free': lambda i2, a, e_: None,
+                              'xmalloc': lambda i2, a, e_: Ptr(Obj('heap@%s' % e_.get('line'), 'heap'), ()),
+                              'fatal': lambda i2, a, e_: (_ for _ in ()).throw(Terminal('fatal', a)), 'error': lambda i2, a, e_: (_ for _ in ()).throw(Terminal('error', cmodel.fmt_of(i2, a, 1)))})
+            load()
+            res = it.call(fn, [Ptr(Obj('scope', 'heap'), ())])
+            return it.load(it.load(res.obj, ('type',)).obj, ('kind',)) == ev(prog, 'TYPEPOINTER')
+        runs = explore(prog, runner, {}, max_runs=2, on_unsupported='keep')
+        key = 'address-of:%s' % what
+        if len(runs) != 1 or runs[0].outcome not in ('return', 'terminal:error'):
+            raise AnalysisBroken('%s: %s' % (key, [(x.outcome, x.detail) for x in runs][:2]))
+        if ok: r.instance(runs[0].outcome == 'return' and runs[0].value, key, 'expr.c:unaryexpr', 'valid: a pointer to the operand; cproc: %s %s' % (runs[0].outcome, runs[0].detail if runs[0].outcome != 'return' else runs[0].value))
+        else: r.instance(runs[0].outcome == 'terminal:error', key, 'expr.c:unaryexpr', 'must be diagnosed; cproc accepts it')
+    r.exhaustive = False
+
+
 # ------------------------------------------------------------------ C10.p restrict
 
 def rule_restrict(chk, prog, tier):
@@ -1482,6 +1531,7 @@ def run(chk, tier):
     chk.guard('C10.s', lambda: rule_paramlist_syntax(chk, prog, tier))
     chk.guard('C10.t', lambda: rule_bitfield_designators(chk, prog, tier))
     chk.guard('C10.u', lambda: rule_tagspec_syntax(chk, prog, tier))
+    chk.guard('C10.v', lambda: rule_addressof(chk, prog, tier))
     from props import c08
     chk.guard('C08.e', lambda: c08.rule_valist(chk, prog, tier))        # va_arg of a structure or union (unsupported) is diagnosed
     from props import c05
